@@ -58,6 +58,7 @@ structure R where
   joined : Bool := false
   wakes : Nat := 0
   pops : Nat := 0
+  swcExpect : List (String × String × Int) := []   -- per caller thread: branch record (su/sd, value) the model predicted at `sr`
   fifoQ : Bool := true                 -- DefaultTaskQueue: Pop returns the oldest task (checked); engine.TaskQueue: any
   earlyBc : Nat := 0                   -- unlocked broadcasts already performed whose record is still to come
 
@@ -121,6 +122,12 @@ def stepRec (c : Rec) (r0 : R) : M R := do
   let r ← match wi with
     | some i => if pcOf r0 i == .drained && c.code != "dr" && c.code != "em" then ev (.drainExit i) r0 else pure r0
     | none => pure r0
+  -- a SetWorkerCount whose deciding section the model predicted must show its branch record next
+  match r.swcExpect.find? (·.1 == c.thread) with
+  | some (_, cd, v) =>
+    expect (c.code == "su" || c.code == "sd")
+      s!"SetWorkerCount: the model decides {cd} {v} in this critical section, the code recorded nothing"
+  | none => pure ()
   match wi with
   | some i =>
     -- `st`/`hd` of a fresh worker may be recorded before the `su` of the SetWorkerCount creating it
@@ -200,27 +207,28 @@ def stepRec (c : Rec) (r0 : R) : M R := do
       let k ← argNat c.args 1
       -- repaired SetWorkerCount: len(workerMap) - workerExiting, read in the deciding critical section
       expect (w == (r.s.live : Int)) s!"sr: workers not told to exit observed {w}, model {r.s.live} (len(workerMap) = {r.s.workerCount})"
-      -- the deciding critical section: this call's count is the target from now on
+      -- the deciding critical section: the MODEL decides here (swcSet) and predicts which branch record
+      -- must follow; this call's count is the target from now on
       let k := if k < 0 then 0 else k
-      pure { r with swcRead := setAssoc r.swcRead c.thread (w, k), lastSet := some k, joined := false }
-    | "su" =>
+      let live := r.s.live
+      let kill := r.s.kill
+      let r ← ev (.swcSet k.toNat) r
+      let exp : Option (String × Int) :=
+        if (live : Int) < k then some ("su", k)
+        else if (live : Int) > k then some ("sd", (live : Int) - k)
+        else if kill > 0 then some ("su", (live : Int))
+        else none
+      let pend := r.swcExpect.filter (·.1 != c.thread)
+      pure { r with swcRead := setAssoc r.swcRead c.thread (w, k), lastSet := some k, joined := false,
+                    swcExpect := match exp with | some (cd, v) => (c.thread, cd, v) :: pend | none => pend }
+    | "su" | "sd" =>
       let n ← argNat c.args 0
-      match r.swcRead.lookup c.thread with
-      | some (_, cnt) =>
-        expect ((r.s.live : Int) ≤ cnt) s!"su: the model shrinks here (live {r.s.live} > count {cnt})"
-        let r ← ev (.swcSet cnt.toNat) r
-        expect (n == (r.s.live : Int)) s!"su: workers after the resize observed {n}, model {r.s.live}"
-        pure r
-      | none => throw "su without sr"
-    | "sd" =>
-      let k ← argNat c.args 0
-      match r.swcRead.lookup c.thread with
-      | some (_, cnt) =>
-        expect ((r.s.live : Int) > cnt) s!"sd: the model does not shrink here (live {r.s.live} ≤ count {cnt})"
-        let r ← ev (.swcSet cnt.toNat) r
-        expect (k == r.s.kill) s!"sd: workerKill observed {k}, model {r.s.kill}"
-        pure r
-      | none => throw "sd without sr"
+      match r.swcExpect.find? (·.1 == c.thread) with
+      | some (_, cd, v) =>
+        expect (cd == c.code) s!"{c.code}: the model takes the other branch of SetWorkerCount here ({cd} {v})"
+        expect (v == n) s!"{c.code}: observed {n}, the model decides {v}"
+        pure { r with swcExpect := r.swcExpect.filter (·.1 != c.thread) }
+      | none => throw s!"{c.code}: the model changes nothing in this SetWorkerCount (requested count there, no kill request pending)"
     | "sb" => do
       let r ← flush r
       let r ← ev .swcLock r
